@@ -60,6 +60,19 @@ enum Case {
         #[serde(default)]
         sent: Vec<String>,
     },
+    /// one live request of the method family: `meth` 0 GET 1 HEAD 2 OPTIONS
+    /// 3 PATCH 4 DELETE 5 PURGE; `cls` 0 an endpoint whose handler returns an
+    /// HttpError with attached headers (variant `hv`), 1 no such path (404),
+    /// 2 path without that method (405, Allow)
+    LiveM {
+        meth: u8,
+        cls: u8,
+        i: u64,
+        status: u16,
+        hv: u8,
+        #[serde(default)]
+        sent: Vec<String>,
+    },
     /// a whole live batch (only its uniqueness line carries this case)
     /// `big`: how many of the n requests one client puts on a single
     /// keep-alive connection (0: spread evenly)
@@ -673,9 +686,74 @@ async fn h_toresult(
     ))
 }
 
+#[derive(Deserialize, JsonSchema)]
+struct QM {
+    status: Option<u16>,
+    hv: Option<u8>,
+}
+
+/// the headers variant `hv` attaches to its error, grouped by (lower-case)
+/// name in order of first use, values in order
+fn attached_for(hv: u8) -> Vec<(&'static str, Vec<&'static str>)> {
+    match hv % 5 {
+        0 => vec![("retry-after", vec!["120"])],
+        1 => vec![
+            ("retry-after", vec!["5"]),
+            ("x-rate-limit-remaining", vec!["0"]),
+            ("cache-control", vec!["no-store"]),
+            ("x-error-detail-public", vec!["see the docs"]),
+        ],
+        2 => vec![("www-authenticate", vec!["Basic realm=\"a\"", "Bearer", "Digest realm=\"b\""])],
+        3 => vec![
+            ("set-cookie", vec!["a=1; Path=/", "b=2; HttpOnly", "c=3"]),
+            ("vary", vec!["accept", "origin"]),
+            ("retry-after", vec!["1"]),
+        ],
+        _ => vec![],
+    }
+}
+const M_CODE: &str = "E13M";
+const M_MSG: &str = "external message of the method family";
+
+/// registered for GET, HEAD, OPTIONS, PATCH, DELETE and PURGE alike
+async fn h_merr(rq: RequestContext<()>, q: Query<QM>) -> Result<HttpResponseOk<Saw>, HttpError> {
+    let q = q.into_inner();
+    let mut e = HttpError {
+        status_code: ErrorStatusCode::from_u16(q.status.unwrap_or(503)).unwrap(),
+        error_code: Some(M_CODE.to_string()),
+        external_message: M_MSG.to_string(),
+        internal_message: MARK.to_string(),
+        headers: None,
+    };
+    e.add_header("x-handler-saw", rq.request_id.as_str()).unwrap();
+    // add_header and with_header alternately, names in mixed case
+    let mut k = 0;
+    for (n, vs) in attached_for(q.hv.unwrap_or(0)) {
+        for v in vs {
+            let name = if k % 2 == 0 { n.to_uppercase() } else { n.to_string() };
+            if k % 3 == 0 {
+                e = e.with_header(name.as_str(), v).unwrap();
+            } else {
+                e.add_header(name.as_str(), v).unwrap();
+            }
+            k += 1;
+        }
+    }
+    Err(e)
+}
+
+const METHODS: [&str; 6] = ["GET", "HEAD", "OPTIONS", "PATCH", "DELETE", "PURGE"];
+
 fn api() -> ApiDescription<()> {
     let mut api = ApiDescription::new();
     let all = || ApiEndpointVersions::All;
+    for m in METHODS {
+        let method = Method::from_bytes(m.as_bytes()).unwrap();
+        api.register(ApiEndpoint::new(format!("m_{}", m), h_merr, method, "application/json", "/m", all()))
+            .unwrap();
+    }
+    // served for HEAD only: a GET here is a 405 whose Allow is HEAD
+    api.register(ApiEndpoint::new("mh".into(), h_merr, Method::HEAD, "application/json", "/mh", all())).unwrap();
     api.register(ApiEndpoint::new("ok".into(), h_ok, Method::GET, "application/json", "/ok", all())).unwrap();
     api.register(ApiEndpoint::new("raw".into(), h_raw, Method::GET, "application/json", "/raw", all())).unwrap();
     api.register(ApiEndpoint::new("err".into(), h_err, Method::GET, "application/json", "/err", all())).unwrap();
@@ -769,6 +847,162 @@ fn pick_sent(rng: &mut Rng, last_id: &Option<String>) -> (&'static str, Vec<Stri
         _ => {
             let second = if rng.chance(1, 2) { CLIENT_UUID.to_string() } else { fresh(rng).to_string() };
             ("twice", vec![CLIENT_UUID.to_string(), second])
+        }
+    }
+}
+
+/// (request bytes, expected status, the headers the error must carry)
+fn m_request(meth: u8, cls: u8, status: u16, hv: u8, sent: &[String]) -> (Vec<u8>, u16, Vec<(String, Vec<String>)>) {
+    let h: Vec<(&str, &str)> = sent.iter().map(|v| ("X-Request-Id", v.as_str())).collect();
+    let m = METHODS[meth as usize];
+    let body: Option<&[u8]> = if meth >= 3 { Some(b"") } else { None };
+    match cls {
+        0 => (
+            live::request(m, &format!("/m?status={}&hv={}", status, hv), &h, body),
+            status,
+            attached_for(hv).into_iter().map(|(n, vs)| (n.to_string(), vs.into_iter().map(String::from).collect())).collect(),
+        ),
+        1 => (live::request(m, "/no/such/route", &h, body), 404, vec![]),
+        _ => {
+            // /ok serves GET only, /mh HEAD only
+            let (path, allow) = if meth == 0 { ("/mh", "HEAD") } else { ("/ok", "GET") };
+            (live::request(m, path, &h, body), 405, vec![("allow".to_string(), vec![allow.to_string()])])
+        }
+    }
+}
+
+/// One exchange on a keep-alive connection (opened on demand).
+fn exchange(
+    c: &mut Option<live::Conn>,
+    addr: std::net::SocketAddr,
+    req: &[u8],
+    head_only: bool,
+) -> Result<live::Resp, String> {
+    if c.is_none() {
+        *c = live::Conn::open(addr).ok();
+    }
+    let conn = c.as_mut().ok_or("connect")?;
+    conn.send(req).map_err(|e| e.to_string())?;
+    conn.read_response(head_only).map_err(|e| format!("{:?}", e).chars().take(300).collect())
+}
+
+/// what 404 / 405 bodies say (learned once from GET /no/such/route and PUT /ok)
+#[derive(Clone)]
+struct Wording {
+    not_found: (Option<String>, String),
+    not_allowed: (Option<String>, String),
+}
+fn learn_wording(addr: std::net::SocketAddr) -> Wording {
+    let get = |req: Vec<u8>| {
+        let r = live::roundtrip(addr, &req, false).expect("probe");
+        let (_, _, code, msg) = parse_error_body(&r.body);
+        (code, msg)
+    };
+    Wording {
+        not_found: get(live::request("GET", "/no/such/route", &[], None)),
+        not_allowed: get(live::request("PUT", "/ok", &[], Some(b""))),
+    }
+}
+
+#[allow(clippy::too_many_arguments)]
+fn m_line(
+    meth: u8,
+    cls: u8,
+    i: u64,
+    status: u16,
+    hv: u8,
+    sent: &[String],
+    sent_tag: &str,
+    w: &Wording,
+    o: Result<live::Resp, String>,
+) -> Line {
+    let case = serde_json::to_value(Case::LiveM { meth, cls, i, status, hv, sent: sent.to_vec() }).unwrap();
+    let (_, expect, attached) = m_request(meth, cls, status, hv, &[]);
+    let (ecode, emsg) = match cls {
+        0 => (Some(M_CODE.to_string()), M_MSG.to_string()),
+        1 => w.not_found.clone(),
+        _ => w.not_allowed.clone(),
+    };
+    let cnames = ["handler-error-with-headers", "route-404", "route-405"];
+    let tags = vec![
+        format!("method:{}", METHODS[meth as usize]),
+        format!("live-m:{}:{}", METHODS[meth as usize], cnames[cls as usize]),
+        format!("attached-variant:{}", if cls == 0 { (hv % 5).to_string() } else { "-".into() }),
+        format!("client-x-request-id:{}", sent_tag),
+    ];
+    let att_coq = g_list(&attached, |(n, vs)| format!("({},{})", g_str(n), g_list(vs, |v| g_str(v))));
+    match o {
+        Err(e) => Line {
+            group: "live-methods",
+            case,
+            obs: json!({"transport_error": e}),
+            // class 99: malformed, as for CLive
+            coq: format!("(CLiveM {} 99 {} 0 [] {} [] None None 0 None [])", meth, expect, att_coq),
+            tags,
+            nontrivial: true,
+        },
+        Ok(r) => {
+            let leak = contains(&r.body, MARK.as_bytes())
+                || r.headers.iter().any(|(n, v)| contains(n.as_bytes(), MARK.as_bytes()) || contains(v, MARK.as_bytes()));
+            // group the wire headers by name; content-length and date apart
+            let mut hs: Vec<(Vec<u8>, Vec<Vec<u8>>)> = vec![];
+            let mut cl: Option<String> = None;
+            for (n, v) in &r.headers {
+                if n == "date" {
+                    continue;
+                }
+                if n == "content-length" {
+                    cl = Some(String::from_utf8_lossy(v).to_string());
+                    continue;
+                }
+                match hs.iter_mut().find(|(k, _)| k == n.as_bytes()) {
+                    Some((_, vs)) => vs.push(v.clone()),
+                    None => hs.push((n.as_bytes().to_vec(), vec![v.clone()])),
+                }
+            }
+            if leak {
+                // reported as a response without any header: a violation
+                hs.clear();
+            }
+            let id = r.header_all("x-request-id").last().map(|v| String::from_utf8_lossy(v).to_string()).unwrap_or_default();
+            // the length of the body this error has for a non-HEAD request
+            let cl_expect = serde_json::to_string_pretty(&HttpErrorResponseBody {
+                request_id: id.clone(),
+                error_code: ecode.clone(),
+                message: emsg.clone(),
+            })
+            .unwrap()
+            .len();
+            let body_coq = if meth == 1 {
+                // HEAD: the head only was read; nothing may follow (checked by the
+                // next exchange on the same connection)
+                "None".to_string()
+            } else {
+                let (wf, rid, code, msg) = parse_error_body(&r.body);
+                format!("(Some (OBody {} {} {} {}))", g_bool(wf && r.body.len() == cl_expect), g_str(&rid), g_ostr(&code), g_str(&msg))
+            };
+            let cl_n: Option<u64> = cl.as_ref().and_then(|s| s.parse().ok());
+            Line {
+                group: "live-methods",
+                case,
+                obs: json!({"status": r.status, "headers": j_hmap(&hs), "content-length": cl, "body_len": r.body.len(), "leak": leak}),
+                coq: format!(
+                    "(CLiveM {} {} {} {} {} {} {} {} {} {} {})",
+                    meth,
+                    cls,
+                    expect,
+                    r.status,
+                    g_hmap(&hs),
+                    att_coq,
+                    g_list(sent, |s| g_str(s)),
+                    body_coq,
+                    g_opt(&cl_n, |x| g_n(*x as u128)),
+                    cl_expect,
+                    format!("{} {}", g_ostr(&ecode), g_str(&emsg))
+                ),
+                tags,
+                nontrivial: true,
+            }
         }
     }
 }
@@ -883,8 +1117,24 @@ fn pick_class(rng: &mut Rng, versioned_too: bool) -> (u8, u16, Vec<String>) {
     (cls, status, own)
 }
 
+/// one answered request of a batch
+enum Item {
+    Ord(u64, u8, u16, Vec<String>, Vec<String>, &'static str, u16, Result<LiveObs, String>, usize),
+    /// method family: the finished line and the id the response carried
+    M { line: Line, id: Option<String>, sent: Vec<String>, sent_tag: &'static str, pos: usize },
+}
+
+fn pick_m(rng: &mut Rng) -> (u8, u8, u16, u8) {
+    // HEAD and OPTIONS half of the time
+    let meth = *rng.pick(&[1u8, 1, 1, 2, 2, 0, 3, 4, 5]);
+    let cls = *rng.pick(&[0u8, 0, 0, 1, 2]);
+    let status = *rng.pick(&[400u16, 401, 403, 404, 405, 409, 429, 444, 500, 503, 599]);
+    (meth, cls, status, rng.below(5) as u8)
+}
+
 fn run_batch(rt: &tokio::runtime::Runtime, n: usize, seed: u64, big: usize, out: &mut dyn Write) {
     let sv = start_servers(rt);
+    let wording = learn_wording(sv.plain);
     let threads = 4usize;
     // client 0 puts `big` requests on one keep-alive connection; the others
     // share the rest over two connections each
@@ -896,6 +1146,7 @@ fn run_batch(rt: &tokio::runtime::Runtime, n: usize, seed: u64, big: usize, out:
         let base = if big > 0 && t > 0 { big + (t - 1) * rest } else { t * per };
         let single = big > 0 && t == 0;
         let (plain, versioned) = (sv.plain, sv.versioned);
+        let w = wording.clone();
         handles.push(std::thread::spawn(move || {
             let mut rng = Rng::new(seed.wrapping_mul(1000).wrapping_add(t as u64));
             let mut cp = live::Conn::open(plain).ok();
@@ -906,16 +1157,39 @@ fn run_batch(rt: &tokio::runtime::Runtime, n: usize, seed: u64, big: usize, out:
             // requests answered on the current plain connection, and the most seen
             let (mut on_conn, mut max_on_conn) = (0usize, 0usize);
             for j in 0..per {
+                if rng.below(6) == 0 {
+                    // one request in six belongs to the method family (HEAD, OPTIONS, ...)
+                    let (meth, cls, status, hv) = pick_m(&mut rng);
+                    let (sent_tag, sent) = pick_sent(&mut rng, &last_id);
+                    let (req, _, _) = m_request(meth, cls, status, hv, &sent);
+                    let mut o = exchange(&mut cp, plain, &req, meth == 1);
+                    if o.is_err() {
+                        cp = None;
+                        on_conn = 0;
+                        o = exchange(&mut cp, plain, &req, meth == 1);
+                    }
+                    if o.is_err() {
+                        cp = None;
+                        on_conn = 0;
+                    } else {
+                        on_conn += 1;
+                        max_on_conn = max_on_conn.max(on_conn);
+                    }
+                    let id = o.as_ref().ok().and_then(|r| {
+                        r.header_all("x-request-id").last().map(|v| String::from_utf8_lossy(v).to_string())
+                    });
+                    if id.is_some() {
+                        last_id = id.clone();
+                    }
+                    let line = m_line(meth, cls, (base + j) as u64, status, hv, &sent, sent_tag, &w, o);
+                    res.push(Item::M { line, id, sent, sent_tag, pos: if single { on_conn } else { 0 } });
+                    continue;
+                }
                 let (cls, status, own) = pick_class(&mut rng, !single);
                 let (sent_tag, sent) = pick_sent(&mut rng, &last_id);
                 let (ver, req, expect) = live_request(cls, status, &own, &sent);
                 let attempt = |c: &mut Option<live::Conn>, addr| -> Result<LiveObs, String> {
-                    if c.is_none() {
-                        *c = live::Conn::open(addr).ok();
-                    }
-                    let conn = c.as_mut().ok_or("connect")?;
-                    conn.send(&req).map_err(|e| e.to_string())?;
-                    conn.read_response(false).map(|r| observe(&r)).map_err(|e| format!("{:?}", e))
+                    exchange(c, addr, &req, false).map(|r| observe(&r))
                 };
                 let slot = if ver { &mut cv } else { &mut cp };
                 let addr = if ver { versioned } else { plain };
@@ -942,7 +1216,7 @@ fn run_batch(rt: &tokio::runtime::Runtime, n: usize, seed: u64, big: usize, out:
                         last_id = Some(l.clone());
                     }
                 }
-                res.push(((base + j) as u64, cls, status, own, sent, sent_tag, expect, o, if single { on_conn } else { 0 }));
+                res.push(Item::Ord((base + j) as u64, cls, status, own, sent, sent_tag, expect, o, if single { on_conn } else { 0 }));
             }
             (res, if single { max_on_conn } else { 0 })
         }));
@@ -956,7 +1230,28 @@ fn run_batch(rt: &tokio::runtime::Runtime, n: usize, seed: u64, big: usize, out:
     for h in handles {
         let (res, m) = h.join().expect("client thread");
         max_on_one = max_on_one.max(m);
-        for (i, cls, status, own, sent, sent_tag, expect, o, pos) in res {
+        for item in res {
+            let (i, cls, status, own, sent, sent_tag, expect, o, pos) = match item {
+                Item::Ord(a, b, c, d, e, f, g, h, k) => (a, b, c, d, e, f, g, h, k),
+                Item::M { mut line, id, sent, sent_tag, pos } => {
+                    if sent_tag != "handed-out-before" {
+                        for v in &sent {
+                            if let Ok(u) = uuid::Uuid::parse_str(v) {
+                                supplied.push(u.as_u128());
+                            }
+                        }
+                    }
+                    if let Some(u) = id.as_deref().and_then(|s| uuid::Uuid::parse_str(s).ok()) {
+                        ids.push(u.as_u128());
+                    }
+                    total += 1;
+                    if pos > 0 {
+                        line.tags.push(format!("large:requests-on-connection:<{}", (pos + 1).next_power_of_two()));
+                    }
+                    emit(out, &line);
+                    continue;
+                }
+            };
             if sent_tag != "handed-out-before" {
                 for v in &sent {
                     if let Ok(u) = uuid::Uuid::parse_str(v) {
@@ -1029,6 +1324,31 @@ fn run_batch(rt: &tokio::runtime::Runtime, n: usize, seed: u64, big: usize, out:
             },
         );
     }
+}
+
+fn run_livem(rt: &tokio::runtime::Runtime, meth: u8, cls: u8, i: u64, status: u16, hv: u8, sent: &[String]) -> Line {
+    let sv = start_servers(rt);
+    let w = learn_wording(sv.plain);
+    let (req, _, _) = m_request(meth, cls, status, hv, sent);
+    let addr = sv.plain;
+    let o = std::thread::spawn(move || {
+        let mut c = None;
+        let r = exchange(&mut c, addr, &req, meth == 1);
+        if meth == 1 && r.is_ok() {
+            // nothing may follow the head of a HEAD answer: a second request on
+            // the same connection must be answered in step
+            let probe = live::request("GET", "/ok?x=1", &[], None);
+            match exchange(&mut c, addr, &probe, false) {
+                Ok(p) if p.status == 200 => r,
+                other => Err(format!("connection out of step after HEAD: {:?}", other.map(|p| p.status))),
+            }
+        } else {
+            r
+        }
+    })
+    .join()
+    .expect("client thread");
+    m_line(meth, cls, i, status, hv, sent, if sent.is_empty() { "none" } else { "replay" }, &w, o)
 }
 
 fn run_live1(rt: &tokio::runtime::Runtime, cls: u8, i: u64, status: u16, own: &[String], sent: &[String]) -> Line {
@@ -1318,6 +1638,9 @@ fn main() {
                         Case::Ctor { k, hdrs, id } => emit(out, &exec_ctor(&rt, &k, &hdrs, &id, "ctor", None)),
                         Case::Live1 { cls, i, status, own, sent } => {
                             emit(out, &run_live1(&rt, cls, i, status, &own, &sent))
+                        }
+                        Case::LiveM { meth, cls, i, status, hv, sent } => {
+                            emit(out, &run_livem(&rt, meth, cls, i, status, hv, &sent))
                         }
                         Case::Batch { n, seed, big } => run_batch(&rt, n, seed, big, out),
                         Case::Large { dim, n, v } => emit(out, &exec_large(&rt, &dim, n, v)),
